@@ -354,6 +354,36 @@ pub fn run(ctx: &mut Ctx, c07: bool) {
                 }
                 b.extend_from_slice(b"tail</b></a>");
                 docs.push(b);
+            } else if r == 4 && i % 40 == 4 {
+                // a name that is not valid UTF-8 next to a sibling (or, as an extension, an existing
+                // element) whose valid name has U+FFFD exactly where the invalid bytes are: anything
+                // that looks names up after a lossy decoding takes the two for one
+                let stem = *rng.pick(&["a", "item", "x-y", "\u{416}"]);
+                let tail = *rng.pick(&["", "b", "1"]);
+                let bad: &[u8] = *rng.pick(&[&[0xFFu8][..], &[0xC3], &[0xE2, 0x82], &[0xF0, 0x9F]]);
+                let good = format!("{}{}{}", stem, "\u{FFFD}", tail);
+                let mut badname: Vec<u8> = stem.as_bytes().to_vec();
+                badname.extend_from_slice(bad);
+                badname.extend_from_slice(tail.as_bytes());
+                let attrs = *rng.pick(&["", " k=\"1\"", " k=\"1\" v='2'"]);
+                let mut b: Vec<u8> = Vec::new();
+                if ndocs == 2 {
+                    if di == 0 {
+                        b.extend_from_slice(format!("<r><{}{}/></r>", good, attrs).as_bytes());
+                    } else {
+                        b.extend_from_slice(b"<r><");
+                        b.extend_from_slice(&badname);
+                        b.extend_from_slice(attrs.as_bytes());
+                        b.extend_from_slice(if rng.chance(1, 2) { b"/></r>" } else { b"></r>" });
+                    }
+                } else {
+                    b.extend_from_slice(format!("<r><{}{}/><", good, attrs).as_bytes());
+                    b.extend_from_slice(&badname);
+                    b.extend_from_slice(attrs.as_bytes());
+                    b.extend_from_slice(if rng.chance(1, 2) { b"/></r>" } else { b"><c/></r>" });
+                }
+                label = "invalid-name-beside-its-lossy-twin".into();
+                docs.push(b);
             } else if r == 1 {
                 // the property bounds C07 at depth 200; a share goes well beyond (C08 has no bound)
                 let depth = match rng.below(8) {
